@@ -576,7 +576,7 @@ def weave_item(hdr, subs, stats):
     if attrs:
         ot.insert(0, "\n".join(attrs) + "\n")
     meta = {
-        "file": rel, "kind": kind, "name": _item_id(rel, name),
+        "file": rel, "kind": kind, "name": _item_id(rel, name, hdr.get("in")),
         "lines": [first_line, last_line],
         "sha256": hashlib.sha256(orig_text.encode()).hexdigest(),
         "rewrites": log, "woven_clauses": clauses,
@@ -646,11 +646,18 @@ def _truncate_casts(ot, types):
             return n
 
 
-def _item_id(rel, name):
+def _item_id(rel, name, within=None):
     parts = rel.split("/")
     crate = parts[1] if len(parts) > 2 and parts[0] == "rust" else parts[0]
     stem = os.path.splitext(parts[-1])[0]
-    return f"{crate}/{stem}::{name}"
+    q = ""
+    if within:
+        tail = within.split(" for ")[-1]
+        tail = re.sub(r"^impl\s*(<[^>]*>)?\s*", "", tail).strip()
+        m = re.match(r"&?\s*(?:mut\s+)?([A-Za-z_][A-Za-z0-9_]*)", tail)
+        if m:
+            q = m.group(1) + "::"
+    return f"{crate}/{stem}::{q}{name}"
 
 
 def _count_clauses(txt):
